@@ -356,6 +356,23 @@ impl G<'_> {
                     P::Int { v, suffix: v < 0 || self.rng.chance(3, 4) }
                 } else {
                     let (a, b) = (self.bound(*it), self.bound(*it));
+                    if self.rng.chance(1, 8) {
+                        // a range that denotes no value: `v..v`, or reversed bounds `hi..=lo`; it matches
+                        // nothing (the empty exclusive range at the minimum of the type cannot even be
+                        // written down as an inclusive range and must be rejected)
+                        let suffix = a < 0 || b < 0 || self.rng.chance(3, 4);
+                        if a == b || self.rng.bool() {
+                            if a == it.min_val() {
+                                if self.ill_typed_allowed {
+                                    self.has_ill_typed = true;
+                                    return P::IllTyped(format!("{}..{}", lit(*it, a, suffix), lit(*it, a, suffix)));
+                                }
+                                return P::Wild;
+                            }
+                            return P::Range { lo: a, hi: a - 1, excl: true, suffix };
+                        }
+                        return P::Range { lo: a.max(b), hi: a.min(b), excl: false, suffix };
+                    }
                     let (lo, hi) = (a.min(b), a.max(b));
                     let excl = hi < it.max_val() && self.rng.chance(1, 3);
                     let suffix = lo < 0 || self.rng.chance(3, 4);
